@@ -5,7 +5,9 @@ import (
 	"fmt"
 	"github.com/dave/dst/decorator/resolver"
 	"github.com/dave/dst/decorator/resolver/goast"
+	"github.com/dave/dst/decorator/resolver/gobuild"
 	"go/ast"
+	"go/build"
 	"go/parser"
 	"go/token"
 	"go/types"
@@ -390,6 +392,31 @@ func c10One(c *fw.Ctx, id string, i int) {
 		var rres resolver.RestorerResolver = simple.New(names)
 		if len(alias)%2 == 1 || len(moved)%2 == 0 {
 			rres = guess.WithMap(names)
+		}
+		if (len(alias)+len(moved))%3 == 2 {
+			// the build-context resolver, made by each of its three constructors in turn: package
+			// names depend on the directory the importing package lives in (vendoring), so the
+			// lookup hook answers only for the directory the resolver was made for
+			dir := "/gopath/src/" + pkgPath
+			var gb *gobuild.RestorerResolver
+			switch len(moved) % 3 {
+			case 0:
+				gb = gobuild.New(dir)
+			case 1:
+				gb = gobuild.WithContext(dir, &build.Context{GOPATH: "/gopath"})
+			default:
+				gb = gobuild.WithHints(dir, map[string]string{"fmt": "fmt"})
+			}
+			gb.FindPackage = func(ctxt *build.Context, importPath, fromDir string, mode build.ImportMode) (*build.Package, error) {
+				if fromDir != dir {
+					return &build.Package{Name: "lookedUpFromTheWrongDirectory"}, nil
+				}
+				if n, ok := names[importPath]; ok {
+					return &build.Package{Name: n}, nil
+				}
+				return nil, nil
+			}
+			rres = gb
 		}
 		rs := decorator.NewRestorerWithImports(pkgPath, rres)
 		fr := rs.FileRestorer()
